@@ -9,7 +9,7 @@ Oracle per loaded module: instrumented iff the CURRENT hooks cover it, by the CU
 code that ran is the CURRENT source's."""
 
 from .. import hooksim
-from ..core import Stats, digest, rng, violation
+from ..core import H, Stats, digest, rng, violation
 from ..hooksim import MODULES, TOPS
 
 PID = "C18"
@@ -109,7 +109,8 @@ def gen(seed, tier="quick"):
         elif fr < 0.45:
             run["ops"].append({"op": "delete_pyc", "index": r.randrange(0, 50)})
         runs.append(run)
-    return {"engine": ENGINE, "property": PID, "seed": seed, "forest": forest, "runs": runs, "bytecode": True}
+    return {"engine": ENGINE, "property": PID, "seed": seed, "forest": forest, "runs": runs, "bytecode": True,
+            "real_process": H(seed, "real") % (40 if tier == "thorough" else 400) == 0}
 
 
 def _sig(p):
@@ -122,7 +123,18 @@ def _sig(p):
 
 def execute(scn):
     stats = Stats()
-    probs = hooksim.run_history(scn, stats)
+    probs, obs_soft = hooksim.run_history(scn, stats)
+    if scn.get("real_process"):
+        # cross-validation of the simulated process boundary: the same history, every run in a fresh interpreter
+        st2 = Stats()
+        probs_real, obs_real = hooksim.run_history(scn, st2, real_process=True)
+        stats.inc("histories_cross_validated_with_real_processes")
+        stats.inc("real_process_runs", st2.get("real_process_runs"))
+        if not probs and not probs_real and obs_real != obs_soft:
+            from ..core import HarnessError
+
+            raise HarnessError(f"soft restart diverges from real processes (seed {scn['seed']}): soft={obs_soft} real={obs_real}")
+        probs = probs + [dict(p, mode="real-process") for p in probs_real]
     stats.inc("runs")
     stats.inc("evaluations", stats.get("modules_loaded"))
     viols = []
